@@ -143,6 +143,7 @@ func Load(dir string, deep bool, overlay map[string][]byte) (*Program, error) {
 	sort.Slice(p.Pkgs, func(i, j int) bool { return p.Pkgs[i].PkgPath < p.Pkgs[j].PkgPath })
 	p.allPkgs = pkgs
 	p.deep = true
+	resolveNames(p.Pkgs)
 	for _, pk := range p.Pkgs {
 		p.indexPkg(pk)
 	}
@@ -239,14 +240,14 @@ func funcName(obj *types.Func) string {
 		}
 		name := t.String()
 		if n, ok := t.(*types.Named); ok {
-			name = n.Obj().Name()
+			name = typeDisplay(n.Obj())
 		}
 		if ptr != "" {
-			return fmt.Sprintf("%s.(*%s).%s", pkg, name, obj.Name())
+			return fmt.Sprintf("%s.(*%s).%s", pkg, name, funcDisplay(obj))
 		}
-		return fmt.Sprintf("%s.%s.%s", pkg, name, obj.Name())
+		return fmt.Sprintf("%s.%s.%s", pkg, name, funcDisplay(obj))
 	}
-	return pkg + "." + obj.Name()
+	return pkg + "." + funcDisplay(obj)
 }
 
 // Pkg returns the repo package with the given short path ("websocket", "modules/vikja").
@@ -264,10 +265,17 @@ func (p *Program) LookupFunc(pkgPath, typeName, name string) *types.Func {
 		return nil
 	}
 	if typeName == "" {
-		f, _ := pk.Types.Scope().Lookup(name).(*types.Func)
-		return f
+		if f, _ := pk.Types.Scope().Lookup(name).(*types.Func); f != nil {
+			return f
+		}
+		for f, a := range funcAlias { // a renamed function playing that role
+			if a == name && f.Pkg() == pk.Types && f.Type().(*types.Signature).Recv() == nil {
+				return f
+			}
+		}
+		return nil
 	}
-	tn, _ := pk.Types.Scope().Lookup(typeName).(*types.TypeName)
+	tn := p.LookupType(pkgPath, typeName)
 	if tn == nil {
 		return nil
 	}
@@ -276,8 +284,20 @@ func (p *Program) LookupFunc(pkgPath, typeName, name string) *types.Func {
 		return f
 	}
 	obj, _, _ = types.LookupFieldOrMethod(tn.Type(), true, pk.Types, name)
-	f, _ := obj.(*types.Func)
-	return f
+	if f, _ := obj.(*types.Func); f != nil {
+		return f
+	}
+	for f, a := range funcAlias { // a renamed method playing that role
+		if a != name || f.Pkg() != pk.Types {
+			continue
+		}
+		if rv := f.Type().(*types.Signature).Recv(); rv != nil {
+			if nt, ok := derefNamedT(rv.Type()); ok && nt.Obj() == tn {
+				return f
+			}
+		}
+	}
+	return nil
 }
 
 func (p *Program) LookupType(pkgPath, typeName string) *types.TypeName {
@@ -285,8 +305,15 @@ func (p *Program) LookupType(pkgPath, typeName string) *types.TypeName {
 	if pk == nil || pk.Types == nil {
 		return nil
 	}
-	tn, _ := pk.Types.Scope().Lookup(typeName).(*types.TypeName)
-	return tn
+	if tn, _ := pk.Types.Scope().Lookup(typeName).(*types.TypeName); tn != nil {
+		return tn
+	}
+	for tn, a := range typeAlias { // a renamed type playing that role
+		if a == typeName && tn.Pkg() == pk.Types {
+			return tn
+		}
+	}
+	return nil
 }
 
 func (p *Program) LookupField(pkgPath, typeName, field string) *types.Var {
@@ -410,7 +437,7 @@ func (p *Program) OwnerName(nt *types.Named) string {
 		tn := nt.Obj()
 		es := p.embedders[tn]
 		if seen[tn] || len(es) != 1 || es[0] == nil || tn.Exported() {
-			return tn.Name()
+			return typeDisplay(tn)
 		}
 		seen[tn] = true
 		nt = es[0]
